@@ -95,8 +95,19 @@ def fstmts(ss, ind=2):
                 out.append(pad + 'else'); out += fstmts(e, ind + 2)
             out.append(pad + 'end if')
         elif k == 'call': out.append('%scall %s(%s)' % (pad, s[1], ', '.join(fx(a) for a in s[2])))
+        elif k == 'select':
+            out.append('%sselect case (%s)' % (pad, fx(s[1])))
+            for vals, body in zip(s[2], s[3]):
+                out.append('%scase (%s)' % (pad, ', '.join(fval(v) for v in vals))); out += fstmts(body, ind + 2)
+            if s[4]: out.append(pad + 'case default'); out += fstmts(s[4], ind + 2)
+            out.append(pad + 'end select')
         else: raise ValueError(s)
     return out
+
+def fval(v):
+    """a case value: expression or ['range', lo|None, hi|None]"""
+    if v[0] == 'range': return '%s:%s' % ('' if v[1] is None else fx(v[1]), '' if v[2] is None else fx(v[2]))
+    return fx(v)
 
 def routine_src(name, args, scalars, arrays, body, intents=None, shapes=None):
     intents = intents or {}
@@ -191,6 +202,119 @@ def compare_runs(p0, p1, stores, procs0, procs1=None, ignore=()):
 
 def _fmt(st):
     return {k: (v if not isinstance(v, dict) else [v[i] for i in sorted(v)]) for k, v in st.items()}
+
+# ------------------------------------------------------------------------------------ SELECT CASE (outside MiniF: oracle only)
+def sel_from_loki(nodes):
+    """like minif.from_loki, plus ['select', selector, [[case values]..], [[body]..], default]; a case value is an expression
+    or ['range', lo|None, hi|None]"""
+    from loki import ir
+    from loki.expression import symbols as sym
+    def val(v):
+        if isinstance(v, sym.RangeIndex):
+            if v.step is not None: raise M.Unsupported('case range with stride')
+            return ['range', None if v.lower is None else B.structure(v.lower), None if v.upper is None else B.structure(v.upper)]
+        return B.structure(v)
+    def flat(ns):
+        out = []
+        for n in ns or ():
+            if isinstance(n, (tuple, list)): out += flat(n)
+            else: out.append(n)
+        return out
+    out = []
+    for n in flat(nodes):
+        if isinstance(n, (ir.Comment, ir.CommentBlock, ir.Pragma)): continue
+        if isinstance(n, ir.Section): out += sel_from_loki(n.body)
+        elif isinstance(n, ir.MultiConditional):
+            out.append(['select', B.structure(n.expr), [[val(v) for v in vs] for vs in n.values],
+                        [sel_from_loki(b) for b in n.bodies], sel_from_loki(n.else_body or ())])
+        elif isinstance(n, ir.Loop):
+            b = n.bounds
+            out.append(['do', n.variable.name.lower(), B.structure(b.start), B.structure(b.stop),
+                        None if b.step is None else B.structure(b.step), sel_from_loki(n.body)])
+        elif isinstance(n, ir.WhileLoop): out.append(['while', B.structure(n.condition), sel_from_loki(n.body)])
+        elif isinstance(n, ir.Conditional):
+            out.append(['if', B.structure(n.condition), sel_from_loki(n.body), sel_from_loki(n.else_body or ())])
+        else: out += M.from_loki((n,))
+    return out
+
+def desugar(ss):
+    """SELECT CASE as an IF chain (Fortran: the selector is evaluated once, at most one block runs, case values do not overlap)"""
+    out = []
+    for s in ss:
+        k = s[0]
+        if k == 'select':
+            sel = s[1]
+            def match(v):
+                if v[0] == 'range':
+                    cs = []
+                    if v[1] is not None: cs.append(['cmp', '>=', sel, v[1]])
+                    if v[2] is not None: cs.append(['cmp', '<=', sel, v[2]])
+                    return ['and'] + cs if cs else ['log', True]
+                return ['cmp', '==', sel, v]
+            chain = desugar(s[4])
+            for vals, body in reversed(list(zip(s[2], s[3]))):
+                chain = [['if', ['or'] + [match(v) for v in vals], desugar(body), chain]]
+            out += chain
+        elif k == 'if': out.append(['if', s[1], desugar(s[2]), desugar(s[3])])
+        elif k == 'do': out.append(s[:5] + [desugar(s[5])])
+        elif k == 'while': out.append(['while', s[1], desugar(s[2])])
+        else: out.append(s)
+    return out
+
+def gen_case_items(rng):
+    """pairwise disjoint case values over the integers, from low to high: optional `:a`, singles and `a:b`, optional `a:`"""
+    items = []
+    cur = rng.randint(-2, 1)
+    if rng.random() < 0.3:
+        items.append(['range', None, I(cur) if cur >= 0 else neg(I(-cur))]); cur += 1
+    for _ in range(rng.randint(2, 5)):
+        cur += rng.randint(0, 2)
+        if cur < 0: cur = 0
+        if rng.random() < 0.5:
+            items.append(I(cur)); cur += 1
+        else:
+            w = rng.randint(0, 3)
+            items.append(['range', I(cur), I(cur + w)]); cur += w + 1
+    if rng.random() < 0.3:
+        cur += rng.randint(0, 2)
+        items.append(['range', I(cur), None]); cur += 1
+    return items, cur
+
+def gen_select_cases(rng, depth=2):
+    """SELECT CASE with literal / foldable / run-time selectors; case values: literals, lists, ranges a:b, :a, a:; with and
+    without default; every block ends with an assignment (an emptied block is a separate, known Transformer defect)"""
+    g = Gen(rng, dovar_outside=False)
+    def assign(): return ['assign', rng.choice(LOCALS), g.expr() if rng.random() < 0.4 else g.lit()]
+    def cond():
+        r = rng.random()
+        if r < 0.3: return ['log', rng.random() < 0.5]
+        if r < 0.55: return cmp(rng.choice(['<', '<=', '>', '>=', '==', '!=']), g.lit(), g.lit())
+        return cmp(rng.choice(['<', '<=', '>', '>=', '==', '!=']), V(rng.choice(['n', 'm', 'x'])), g.lit())
+    def select(d):
+        items, top = gen_case_items(rng)
+        rng.shuffle(items)
+        ncase = rng.randint(1, min(3, len(items)))
+        vals = [[items.pop()] for _ in range(ncase)]
+        while items and rng.random() < 0.6: vals[rng.randrange(ncase)].append(items.pop())
+        v = rng.randint(-3, top + 2)
+        r = rng.random()
+        if r < 0.35: sel = I(v) if v >= 0 else neg(I(-v))
+        elif r < 0.6:
+            a = rng.randint(0, 6); sel = rng.choice([add(I(a), I(v - a)) if v >= a else sub(I(a), I(a - v)), sub(I(v + a), I(a)) if v + a >= 0 else sub(I(0), I(-v)), mul(I(1), I(abs(v)))])
+        else: sel = rng.choice([V('n'), V('m'), add(V('n'), I(rng.randint(0, 3)))])
+        bodies = [stmts(d, rng.randint(0, 2)) + [assign()] for _ in range(ncase)]
+        dflt = (stmts(d, rng.randint(0, 1)) + [assign()]) if rng.random() < 0.6 else []
+        return ['select', sel, vals, bodies, dflt]
+    def stmts(d, n):
+        out = []
+        for _ in range(n):
+            r = rng.random()
+            if d > 0 and r < 0.35: out.append(select(d - 1))
+            elif d > 0 and r < 0.65: out.append(['if', cond(), stmts(d - 1, rng.randint(0, 1)) + [assign()], stmts(d - 1, rng.randint(0, 2))])
+            elif d > 0 and r < 0.72: out.append(['do', 'i', I(1), V('n'), None, stmts(d - 1, rng.randint(0, 1)) + [assign()]])
+            else: out.append(assign())
+        return out
+    return stmts(depth, rng.randint(0, 2)) + [select(depth)] + stmts(depth, rng.randint(0, 1)) + ([select(depth - 1)] if rng.random() < 0.4 else [])
 
 # ------------------------------------------------------------------------------------ generators
 def is_closed(e):
@@ -444,13 +568,14 @@ class C32(Property):
             'DO WHILE, calls, array elements with literal and DO-variable subscripts; candidates outside the modelled class '
             '(decided by the Coq model: in_class_*) are dropped before the run; kinds: cp (do_constant_propagation), cp-unroll '
             '(unroll_loops=True, two passes), dce (do_remove_dead_code with and without simplify), unused (unused dummies/locals + '
-            'call arguments), crash (literal division by zero); a case is non-trivial when the transformation changed the routine; '
+            'call arguments), dce-select (SELECT CASE with literal / foldable / run-time selectors, case values as literals, lists and ranges a:b, :a, a:, with and without default, nested; oracle only), crash (literal division by zero); a case is non-trivial when the transformation changed the routine; '
             'distinct = distinct (kind, program)')
     modelled_not_verified = [
         'SimplifyMapper is modelled only on the class of binary expressions over literals/atoms (everything else is outside the class); its general algebra is C08/C09',
         'LoopUnrollTransformer (used between the two passes when unroll_loops=True) is not modelled here (C31): the tie takes Loki\'s unrolled body as given',
         'declaration-time initialisers (generate_declarations_map) are not part of MiniF routines: the initial map is empty',
         'frontend round trip Fortran text -> IR is checked for equality with the generated JSON on every case, not modelled',
+        'RemoveDeadCodeTransformer.visit_MultiConditional (SELECT CASE pruning) is NOT modelled in Coq: kind dce-select is oracle only (reference interpreter on the IF-chain reading of SELECT CASE, gfortran sample); single-value pruning has a Coq model in C40 (kdce)',
         'do_remove_unused_vars / do_remove_unused_dummy_args only edit declarations: checked by comparing the declared names, the MiniF semantics has no declarations',
     ]
 
@@ -496,6 +621,10 @@ class C32(Property):
         for k, c in enumerate(kept[:(140 if quick else 1200)]):
             c['gf'] = (not quick) and (k % 25 == 0)
             yield c
+        # --- dead code on SELECT CASE (visit_MultiConditional): oracle only, no Coq model
+        for k in range(150 if quick else 1200):
+            yield {'kind': 'dce-select', 'simplify': rng.random() < 0.75, 'body': gen_select_cases(rng), 'gf': k % (30 if quick else 40) == 0}
+        for c in SELECT_HAND: yield copy.deepcopy(c)
         # --- dead code: pruning a whole ELSE IF branch raises (ValidationError for has_elseif=())
         for _ in range(6 if quick else 30):
             g = Gen(rng)
@@ -527,6 +656,8 @@ class C32(Property):
             return self._run_cp(case, unroll=True)
         if kind in ('dce', 'dce-crash'):
             return self._run_dce(case)
+        if kind == 'dce-select':
+            return self._run_dce(case, conv=sel_from_loki)
         if kind in ('unused', 'finding-unused'):
             return self._run_unused(case)
         if kind == 'finding-src':
@@ -571,12 +702,14 @@ class C32(Property):
         do_constant_propagation(r, unroll_loops=False)
         return {'roundtrip': True, 'src1': fgen(r)}
 
-    def _run_dce(self, case):
+    def _run_dce(self, case, conv=None):
         from loki.transformations.remove_code import do_remove_dead_code
         from loki import fgen
         src = cp_unit_src(case['body'])
         r = self._parse(src)
-        p0 = M.from_loki(r.body.body)
+        conv = conv or (lambda body: M.from_loki(body.body))
+        if conv is sel_from_loki: conv = lambda body: sel_from_loki(body.body)
+        p0 = conv(r.body)
         out = {'roundtrip': p0 == case['body']}
         if not out['roundtrip']: out['p0'] = p0
         try:
@@ -584,7 +717,7 @@ class C32(Property):
         except Exception as e:
             if type(e).__name__ != 'ValidationError': raise
             return {'roundtrip': out['roundtrip'], 'error': 'ValidationError'}
-        out['p1'] = M.from_loki(r.body.body)
+        out['p1'] = conv(r.body)
         out['src1'] = fgen(r)
         return out
 
@@ -641,6 +774,8 @@ class C32(Property):
         if kind == 'cp-unroll':
             fu = Nat(2 * max(count_stmts(case['body']), count_stmts(out['p2'])) + 6)
             return coq(C('chk_cp2_weak', fu, M.stmts_model(case['body']), M.stmts_model(out['p1']), M.stmts_model(out['p2']), M.stmts_model(out['p3'])))
+        if kind == 'dce-select':
+            return None       # SELECT CASE is outside MiniF and not modelled: oracle only (round trip still enforced above)
         if kind in ('dce', 'dce-crash') and 'error' in out:
             return coq(C('negb', C('in_class_dce', bool(case['simplify']), M.stmts_model(case['body']))))
         if kind in ('dce', 'dce-crash'):
@@ -671,6 +806,12 @@ class C32(Property):
         if 'error' in out or 'error2' in out: return None
         if kind == 'cp-raw': return None      # outside the class: tie only (see rule)
         nst = 6
+        if kind == 'dce-select':
+            p0, p1 = desugar(case['body']), desugar(out['p1'])
+            msg = compare_runs(p0, p1, stores_for(case, 8), procs_for(p0))
+            if msg: return msg
+            if case.get('gf'): return self._gfortran(case, out, p0)
+            return None
         if kind in ('cp', 'finding-cp', 'cp-unroll', 'dce', 'dce-crash'):
             p0 = case['body']
             p1 = out['p3'] if (kind == 'cp-unroll' or case.get('unroll')) else out['p1']
@@ -758,7 +899,7 @@ class C32(Property):
     def nontrivial_key(self, case, out):
         kind = case['kind']
         if not isinstance(out, dict) or 'error' in out or 'error2' in out or '__exception__' in out: return None
-        if kind in ('cp', 'dce', 'cp-raw'):
+        if kind in ('cp', 'dce', 'cp-raw', 'dce-select'):
             if out.get('p1') == case['body']: return None
             return (kind, case.get('simplify'), json.dumps(case['body']))
         if kind == 'cp-unroll':
@@ -807,6 +948,19 @@ HAND_CASES = [
                                                ['if', cmp('>', V('n'), I(0)), [['assign', 'z', I(1)]], [['if', cmp('>', I(1), I(2)), [['assign', 'z', I(2)]], [['assign', 'z', I(3)]]]]]]},
     {'kind': 'dce', 'simplify': False, 'body': [['if', cmp('<', I(1), I(2)), [['assign', 'x', I(1)]], [['assign', 'x', I(2)]]],
                                                 ['if', ['log', False], [['assign', 'y', I(3)]], [['assign', 'y', I(4)]]]]},
+]
+
+def _sel(sel, vals, bodies, dflt): return ['select', sel, vals, bodies, dflt]
+def _rng(a, b): return ['range', None if a is None else I(a), None if b is None else I(b)]
+SELECT_HAND = [   # the scenarios of seeded/C32_2/demo.py in the integer fragment
+    {'kind': 'dce-select', 'simplify': True, 'gf': True, 'body': [
+        _sel(I(2), [[I(1)], [I(5), I(2)]], [[['assign', 'x', I(1)]], [['assign', 'x', I(2)]]], [['assign', 'x', I(3)]]),
+        _sel(I(8), [[I(1)], [I(4)]], [[['assign', 'y', I(1)]], [['assign', 'y', I(2)]]], [['assign', 'y', I(3)]]),
+        _sel(add(I(2), I(2)), [[_rng(1, 5)], [I(9)]], [[['assign', 'z', mul(I(10), V('n'))]], [['assign', 'z', I(7)]]], [['assign', 'z', mul(V('z'), I(2))]]),
+        _sel(I(7), [[_rng(None, 0)], [_rng(6, None)]], [[['assign', 'k', sub(V('k'), I(100))]], [['assign', 'k', add(V('k'), I(100))]]], []),
+        _sel(V('n'), [[_rng(None, 0), I(3)], [_rng(4, 8)]], [[['assign', 'x', add(V('x'), I(5))]], [['assign', 'x', add(V('x'), I(6))]]], [])]},
+    {'kind': 'dce-select', 'simplify': False, 'gf': False, 'body': [
+        _sel(I(4), [[_rng(1, 5)], [I(9)]], [[['assign', 'z', I(1)]], [['assign', 'z', I(7)]]], [['assign', 'z', I(2)]])]},
 ]
 
 PROP = C32
